@@ -633,6 +633,11 @@ class Inliner:
                 if not h.static or h.cls not in self.repo.mro(self.repo.classes[f.value.id]):
                     return None
                 recv = None
+            elif isinstance(self.cur.node, ast.FunctionDef) and f.value.id in [a.arg for a in self.cur.node.args.args[1:]] and not h.static \
+                    and f.value.id not in _assigned(self.cur.node) and not self.repo.is_subclass(h.cls, 'Field') and not self.repo.is_subclass(h.cls, 'Packet'):
+                # a parameter (the output buffer handed down to every pack) asked to do a step that only
+                # one class of the package defines: the method of that utility class
+                recv = f.value
             else:
                 return None
         else:
@@ -2429,10 +2434,16 @@ def lower_local_method_aliases(repo):
             methods |= {k for k, v in c.methods.items() if isinstance(v.node, ast.FunctionDef) and not v.node.decorator_list}
         # attributes that are assigned as data anywhere are not methods for this purpose
         cands = {}
+        params_ = {a.arg for a in fi.node.args.args[1:]} - _assigned(fi.node)
         for st in fi.node.body:
             if isinstance(st, ast.Assign) and len(st.targets) == 1 and isinstance(st.targets[0], ast.Name) and isinstance(st.value, ast.Attribute) \
                     and isinstance(st.value.value, ast.Name) and st.value.value.id == me and st.value.attr in methods and not st.value.attr.startswith('__'):
                 cands[st.targets[0].id] = st
+            elif isinstance(st, ast.Assign) and len(st.targets) == 1 and isinstance(st.targets[0], ast.Name) and isinstance(st.value, ast.Attribute) \
+                    and isinstance(st.value.value, ast.Name) and st.value.value.id in params_ and not st.value.attr.startswith('__') \
+                    and sum(1 for c_ in repo.classes.values() if st.value.attr in c_.methods) == 1 \
+                    and not any(repo.is_subclass(c_, 'Field') or repo.is_subclass(c_, 'Packet') for c_ in repo.classes.values() if st.value.attr in c_.methods):
+                cands[st.targets[0].id] = st        # a step of a utility class asked of a parameter (the output buffer)
         if not cands:
             continue
         par = {}
@@ -2450,7 +2461,7 @@ def lower_local_method_aliases(repo):
                 continue
             for n in loads:
                 call = par[id(n)]
-                call.func = ast.copy_location(ast.Attribute(value=ast.Name(id=me, ctx=ast.Load()), attr=attr, ctx=ast.Load()), n)
+                call.func = ast.copy_location(ast.Attribute(value=ast.Name(id=st.value.value.id, ctx=ast.Load()), attr=attr, ctx=ast.Load()), n)
             fi.node.body = [b for b in fi.node.body if b is not st]
             count += 1
         ast.fix_missing_locations(fi.node)
